@@ -26,6 +26,7 @@ type bodyScript struct {
 	Status      int    // default 200
 	ContentType string // default text/plain; version=0.0.4
 	Gzip        bool   // wire body is gzip(Body)
+	Members     int    // > 1 with Gzip: the body is sent as that many concatenated gzip members (RFC 1952 2.2)
 	Body        []byte // exposition payload (before compression)
 	Chunks      []int  // sizes of successive Read results over the wire bytes (nil: one Read per 32 KiB)
 	ErrAt       int    // >=0: after this many WIRE bytes the body returns Err (repeatedly)
@@ -42,9 +43,26 @@ func (b *bodyScript) wire() []byte {
 		return b.Body
 	}
 	var buf bytes.Buffer
-	zw := gzip.NewWriter(&buf)
-	zw.Write(b.Body)
-	zw.Close()
+	parts := [][]byte{b.Body}
+	if b.Members > 1 {
+		parts = nil
+		step := len(b.Body)/b.Members + 1
+		for i := 0; i < len(b.Body); i += step {
+			end := i + step
+			if end > len(b.Body) {
+				end = len(b.Body)
+			}
+			parts = append(parts, b.Body[i:end])
+		}
+		if len(parts) == 0 {
+			parts = [][]byte{nil, nil}
+		}
+	}
+	for _, p := range parts {
+		zw := gzip.NewWriter(&buf)
+		zw.Write(p)
+		zw.Close()
+	}
 	return buf.Bytes()
 }
 
